@@ -33,4 +33,26 @@ def quotaDrop (s : State) (n : Nat) : State :=
   { s1 with pods := s1.pods.map fun p =>
       if p.quota = n && p.inCache then { p with inCache := false, assigned := false } else p }
 
+/-- `OnPodUpdate(quota, quota, new, old)` where the new object differs from the old one ONLY in the label
+    `quota.scheduling.koordinator.sh/preemptible` (same requests, same quota label), for a pod its group holds
+    (eighth round).  Same-quota branch: `updatePodRequestNoLock` (request side, C01), then — the pod is assigned —
+    `updatePodUsedNoLock(quota, old, new)`: `deltaUsed` is zero, `deltaNonPreemptibleUsed` is ± the masked request,
+    the early return needs BOTH to be zero, so `updateGroupDeltaUsedNoLock(quota, 0, ±request, 0)` moves the amount
+    into / out of the non-preemptible used of the group (own + subtree) and of every ancestor.  A pod that is not
+    assigned (no node name) only has its cached object refreshed (`refreshPodIfPresent`). -/
+def podFlip (s : State) (id : Nat) : State :=
+  match findP s.pods id with
+  | none => s
+  | some p =>
+    match findQ s.quotas p.quota with
+    | none => s
+    | some q =>
+      if !p.inCache then s else
+      { s with
+        quotas := if p.assigned then
+            applyDelta s (pathNames s p.quota) (some p.quota) (fun _ => 0)
+              (fun d => if p.np then -(mreq q p d) else mreq q p d)
+          else s.quotas
+        pods := setPod s.pods id fun x => { x with np := !x.np } }
+
 end KoordVerif.C03
